@@ -75,7 +75,19 @@ struct Run {
 }
 
 fn launch(ctx: &Ctx, case: &LaunchCase) -> Run {
-    let sc = Scratch::new(&ctx.scratch, "c07");
+    launch_in(&ctx.scratch, case)
+}
+
+/// The same on a thread of its own: the first launch that thread ever makes (nothing
+/// the library may keep per thread has been set up by an earlier, successful launch).
+fn launch_on_fresh_thread(ctx: &Ctx, case: &LaunchCase) -> Run {
+    let scratch = ctx.scratch.clone();
+    let c2 = case.clone();
+    std::thread::spawn(move || launch_in(&scratch, &c2)).join().expect("launch thread")
+}
+
+fn launch_in(scratch: &std::path::Path, case: &LaunchCase) -> Run {
+    let sc = Scratch::new(scratch, "c07");
     let bindir = sc.subdir("bin");
     let prefix = sc.path("rep");
     let prog = link_vchild(&bindir, OsStr::new("prog"));
@@ -339,6 +351,18 @@ const ERRNOS: &[i32] = &[libc::EMFILE, libc::ENFILE, libc::EAGAIN, libc::ENOMEM,
 
 /// Enumerate every injection point of one configuration.
 fn enumerate_config(ctx: &Ctx, cfg: &Config, salt: u64) -> bool {
+    // a failing launch as the very first launch of a fresh thread
+    {
+        let case = LaunchCase { cfg: cfg.clone(), fault: Fault::Real(RealCause::MissingProgram), exec_calls: 0 };
+        let run = launch_on_fresh_thread(ctx, &case);
+        let ok = ctx.run_case("real+fault", &case, |rep| {
+            rep.nontrivial(format!("first-on-thread|MissingProgram|{}|in{:?}out{:?}err{:?}", if cfg.detached { "det" } else { "att" }, cfg.stdin, cfg.stdout, cfg.stderr));
+            judge(&case, &run)
+        });
+        if !ok {
+            return false;
+        }
+    }
     // dry run: count the calls of each kind
     let dry = LaunchCase { cfg: cfg.clone(), fault: Fault::None, exec_calls: 0 };
     let run = launch(ctx, &dry);
